@@ -6,17 +6,20 @@ CLAIMS = {
         'expects, every unwrap and u64 addition unreachable; ring invariant; next strictly monotone; duplicates idempotent; '
         'InsertError::{Retired,ExceedsLimit} and the handler\'s PROTOCOL_VIOLATION / CONNECTION_ID_LIMIT_ERROR decided exactly); '
         'CidState (retirement of any peer-chosen sequence number total, rejected iff sequence > issued, active CIDs <= limit (+1 during a '
-        'lifetime rotation)); AckFrequencyState (ack_frequency_received total with exact decision; candidate_max_ack_delay panics iff '
-        'peer min_ack_delay > max(rtt, 25 ms): counterexample theorem = DESIGN F1, confirmed on the real code, plus the no-panic theorem '
-        'under exactly that guard); ACK parsing (for all byte strings scan_ack_blocks is total and bounded by its input, and whatever it '
-        'accepts is iterated by AckIter with no underflow into exactly extra_blocks+1 descending disjoint ranges). Also proved: the pending '
-        'RETIRE_CONNECTION_ID queue has NO absolute bound (the already-retired path bypasses MAX_PENDING_RETIRED_CIDS; growth 1 entry per frame). '
+        'lifetime rotation)); AckFrequencyState (ack_frequency_received total with exact decision; candidate_max_ack_delay and '
+        'should_send_ack_frequency never panic for ANY peer min_ack_delay, rtt and config, and no event sequence does: full theorems since '
+        'DESIGN F1 — clamp(min,max) with min > max — was confirmed by this check and fixed in quinn); ACK parsing (for all byte strings scan_ack_blocks is total and bounded by its input, and whatever it '
+        'accepts is iterated by AckIter with no underflow into exactly extra_blocks+1 descending disjoint ranges). Also proved: the queue of '
+        'pending RETIRE_CONNECTION_ID frames never exceeds MAX_PENDING_RETIRED_CIDS + LEN - 1 over all frame sequences (full theorem since the '
+        'already-retired arm, which bypassed the limit, was found by the model and fixed in quinn). PathResponses <= MAX_PATH_RESPONSES, '
+        'pending ACK ranges <= MAX_ACK_BLOCKS with the ArrayRangeSet representation invariant. '
         'Constants, error codes and guard expressions are regenerated from the Rust on every run; every model is compared line by line '
         '(including every panic and the full internal state) with the real component on generated and malformed streams.',
    ref='5.3', technique='Lean 4 invariant/refinement proofs (induction over op lists, omega, simp) + generated constants/guards (T1) + '
                         'in-process differential execution with catch_unwind (T2) + property oracles on the implementation output',
    note='Covers cid_queue.rs, cid_state.rs, ack_frequency.rs and the ACK part of frame.rs. The NEW_CONNECTION_ID arm of process_payload '
-        'is mirrored in the executor (its text is anchored by T1), not executed in place. Known finding F1 (key '
-        'F1-ack-frequency-clamp-panics) is rediscovered by the generator on every run and kept as corpus/ackfreq/F1.ops. Other C03 '
+        'is mirrored in the executor (its text is anchored by T1), not executed in place. The two defects found (F1 clamp panic; unbounded '
+        'retire_cids) are fixed; their witnesses stay as corpus/ackfreq/F1.ops and corpus/cidq/retire-flood.ops and their oracle keys '
+        '(F1-ack-frequency-clamp-panics, cidq-retire-cids-unbounded) stay in the generators, so a regression is a VIOLATION. Other C03 '
         'items of DESIGN 5.3 (frame iterator for all types, transport parameters, streams, datagrams, system-level injection) are growth.'),
 }
